@@ -166,7 +166,7 @@ func C01(run *hx.Run) {
 				base := fmt.Sprintf("C01/select/%s", t.Name)
 				detail := hx.M{"profile": d.Profile, "db_seed": d.Seed, "table": t.Name, "columns": cols}
 				if pm != "" {
-					run.Violation(base+"/panic", "Select panicked: "+pm, detail)
+					run.Violation(base+"/"+pmKind(pm), "Select: "+pm, detail)
 					continue
 				}
 				if err != nil {
